@@ -1,5 +1,6 @@
 import Driver.Util
 import GoBeans.Model.Hint
+import GoBeans.Model.HintMerge
 
 /-! engine `hint` (C14): real hint writer / reader / index / lookup / merge against the byte-level model
     (kind=model) and the list-level specification (kind=oracle). -/
@@ -17,6 +18,11 @@ def parseItems (s : String) : List Item := if s == "-" || s == "" then [] else (
 
 def fmtItem (it : Item) : String := s!"{it.khash}:{it.chunk}:{it.off}:{it.ver}:{it.vhash}:{tohex it.key}"
 def fmtItems (l : List Item) : String := if l.isEmpty then "-" else ",".intercalate (l.map fmtItem)
+
+/-- insertion into a list kept in (khash, key) order (the harness prints the collision table sorted that way) -/
+def insK (x : Item) : List Item → List Item
+  | [] => [x]
+  | y :: ys => if HintMerge.keyLt x y then x :: y :: ys else y :: insK x ys
 
 def kvOpt (ws : List String) (name : String) : Option String :=
   ws.findSome? fun w => if w.startsWith (name ++ "=") then some (w.drop (name.length + 1)).toString else none
@@ -88,10 +94,20 @@ def run (lines : Array String) : IO Report := do
     | "hmerge" :: srcs =>
         let parsed := srcs.filterMap fun s => match s.splitOn "=" with
           | [ck, its] => some (ck.toNat!, parseItems its) | _ => none
-        let (merged, groups) := merge parsed
         let ds := (List.range parsed.length).foldl (fun m i => max m (1000 * (i + 1))) 0
-        let m := s!"ds={ds} merged={fmtItems merged} coll={fmtItems groups}"
-        if m ≠ obs then diff rep ln "oracle" s!"case={cid} key=C14/merge merge result differs from the specification: spec={m.take 200} impl={obs.take 200}"
+        -- model: the k-way heap merge of hintmerge.go step by step (Model/HintMerge.lean, Go's container/heap transcribed)
+        let mm := match HintMerge.kway HintMerge.goHeap parsed with
+          | .panic => "PANIC"
+          | .aborted _ => "ERR"
+          | .ok out coll => s!"ds={ds} merged={fmtItems out} coll={fmtItems ((coll.foldl HintMerge.ctSet []).foldr insK [])}"
+        if mm ≠ obs then diff rep ln "model" s!"case={cid} hmerge: model={mm.take 200} impl={obs.take 200}"
+        -- oracle: the specification (per key the entry of greatest position, in (hash,key) order; every member of every
+        -- group of different keys sharing a hash reported) — stated for the inputs the code is meant for: sources
+        -- non-empty and strictly sorted, no two entries with the same key AND the same position
+        if HintMerge.srcsOK parsed && HintMerge.noTies (HintMerge.allItems parsed) then
+          let (merged, groups) := merge parsed
+          let m := s!"ds={ds} merged={fmtItems merged} coll={fmtItems groups}"
+          if m ≠ obs then diff rep ln "oracle" s!"case={cid} key=C14/merge merge result differs from the specification: spec={m.take 200} impl={obs.take 200}"
         ok rep
     | ["end"] => pure ()
     | _ => diff rep ln "driver" s!"unparsed line: {l.take 60}"
